@@ -1,6 +1,7 @@
 import CookModel.Driver.Syntax
 import CookModel.Driver.StdMeta
 import CookModel.Analysis.FrontMatter
+import CookModel.Analysis.MetaValidator
 /-
   Line-protocol handlers for documents WITH front matter, front matter interpreted
   (`Analysis/FrontMatter.lean`).
@@ -11,7 +12,9 @@ import CookModel.Analysis.FrontMatter
     <conv>       0 = empty converter, 1 = bundled converter (as for `recipe`)
     <fm>         what `serde_yaml::from_str::<Mapping>` made of the YAML slice:
                  `M{k=v;k=v;…}` the mapping in the `enc_yaml` encoding of Driver/StdMeta.lean, or
-                 `E~` / `E<byte index>` a YAML error without / with a location
+                 `E~` / `E<byte index>` a YAML error without / with a location, or
+                 `-` for a document WITHOUT front matter (then the validator is called by the `>>` arm,
+                 Analysis/MetaValidator.lean)
     <validator>  `-` (no `metadata_validator`) or the verdicts of the calls in call order, `,`-separated:
                  three characters `<o|w|e><include 0/1><run_std_checks 0/1>`
 
@@ -33,6 +36,7 @@ partial def renderY : Y → String
 
 def parseDecoded (s : String) : Option FM.Decoded :=
   match s.toList with
+  | ['-'] => some (.err none)     -- no front matter: the decoder is never consulted
   | 'M' :: r =>
     match parseYaml r with
     | some (.map m) => some (.ok m)
@@ -93,7 +97,7 @@ def handleFrontMatter : List String → Option String
     let v ← parseValidator val
     let s ← parseText? txt
     if decodedHuge d then return "huge-exponent"
-    return rAnalysisFm (fmEnv conv d v) (parseRecipe (α := Float) (realEnv ext conv) s)
+    return rAnalysisFm (fmEnv conv d v) (MV.parseRecipeV (α := Float) (realEnv ext conv) v s)
   | ["metaonly_fm", ext, conv, fm, val, txt] => do
     let ext ← parseNat? ext
     let conv ← parseNat? conv
@@ -101,7 +105,7 @@ def handleFrontMatter : List String → Option String
     let v ← parseValidator val
     let s ← parseText? txt
     if decodedHuge d then return "huge-exponent"
-    return rMetaOnlyFm (fmEnv conv d v) (parseMetadata (α := Float) (realEnv ext conv) s)
+    return rMetaOnlyFm (fmEnv conv d v) (MV.parseMetadataV (α := Float) (realEnv ext conv) v s)
   | _ => none
 
 end Cook.Driver
